@@ -74,6 +74,13 @@ def single_step_cases(ctx):
 def random_cases(ctx):
     from .c02 import mutate
 
+    for version in [None, *VERSIONS]:
+        for steps in (histories.wide_unknown_nodes(ctx.pick(40, 250)), histories.wide_unknown_nodes(17),
+                      histories.presentation_type_sweep([*range(0, 40), 99, -1]),
+                      histories.type_table_sweep(list(range(0, 40, 5)), list(range(0, 57)))):
+            if ctx.mine():
+                yield {"version": version, "steps": steps}
+
     rng = ctx.rng
     for i in range(ctx.pick(400, 100000) // ctx.shard_count):
         version = [None, *VERSIONS][i % 6]
